@@ -41,6 +41,16 @@ func runC09(ctx *Ctx, c c09Case) {
 	if _, ok := readFile(dir, failOut); ok {
 		ctx.Res.Violate(Violation{What: fmt.Sprintf("output %s of the failing task exists at its final path", failOut), Class: "c09.final-appeared", Witness: c})
 	}
+	for _, t := range ch.tasks() {
+		if t.Outs["out"] != failOut {
+			continue
+		}
+		for port, o := range t.Outs {
+			if _, ok := readFile(dir, o); ok && port != "out" {
+				ctx.Res.Violate(Violation{What: fmt.Sprintf("output %s (port %s) of the failing task exists at its final path", o, port), Class: "c09.final-appeared", Witness: c})
+			}
+		}
+	}
 	started := startedTasks(rr.CmdTrace)
 	for k := range started {
 		f := strings.Fields(k)
@@ -89,6 +99,11 @@ func checkC09(ctx *Ctx) {
 		}
 		c := c09Case{Chain: ch, Level: r.Intn(len(ch.Levels)), Input: ch.Inputs[r.Intn(len(ch.Inputs))], Kind: kinds[i%len(kinds)]}
 		cases = append(cases, c)
+	}
+	// a task with two declared outputs of which one is not produced: neither may be finalized (several
+	// repetitions: which output FinalizePaths would visit first depends on Go's map order)
+	for k := 0; k < 6; k++ {
+		cases = append(cases, c09Case{Chain: Chain{Inputs: []string{"a.txt", "b.txt"}, Levels: []Level{{TwoOut: true, SleepMs: 5}, {SleepMs: 5}}, Max: 2}, Level: 0, Input: "a.txt", Kind: "missing"})
 	}
 	parallel(len(cases), 8, func(i int) {
 		if ctx.TimeLeft() {
